@@ -9,8 +9,13 @@ package jsonwire
 // Ghost helpers used by the //@ contract clauses in the zz_verif_*.go files.
 // They are ordinary Go so that contract expressions are type-checked by the
 // Go type checker and can be executed when a counterexample is replayed.
+// (Generated from /verif/contracts/prelude.go.tmpl; identical in every package.)
 
+// old(x) is the value of x when the function was entered.
 func old[T any](x T) T { return x }
+
+// entry(x), in a loop invariant, is the value of x when the loop was entered.
+func entry[T any](x T) T { return x }
 
 func implies(a, b bool) bool { return !a || b }
 
